@@ -661,6 +661,13 @@ def invalid_probes(seed, state, nr=3, nc=3):
         if m:
             g.emit("mkbasis b4 %s %s" % (cs_ok or "-", "5" + rs_ok[1:]))
             probe("load_basis h0 b4")
+        # both dimensions wrong but the same total (a stale basis of a problem that lost a row and gained a column, or the reverse),
+        for bi, (nc, nr) in enumerate([(n + 1, m - 1), (n - 1, m + 1)]):
+            if nc < 0 or nr < 0:
+                continue
+            kb = min(nr, nc)                # internally consistent: as many basic entries as the basis itself has rows
+            g.emit("mkbasis b%d %s %s" % (5 + bi, ("1" * kb + "0" * (nc - kb)) or "-", ("1" * (nr - kb) + "0" * kb) or "-"))
+            probe("load_basis h0 b%d" % (5 + bi))
         probe("write_basis h0 b1 /dev/null")
         probe("write_basis h0 b2 /dev/null")
         probe("basis_optimalstatus h0 b1") if False else None
